@@ -30,9 +30,9 @@ def gro_line(resid, resname, name, nr, pos, vel=None, dec=3):
     return s
 
 
-def write_gro(path, records, box=(10.0, 10.0, 10.0), title='synthetic system', dec=3):
-    """records: list of (resid, resname, atomname, nr, (x, y, z)[, (vx, vy, vz)])"""
-    with open(path, 'w') as fh:
+def write_gro(path, records, box=(10.0, 10.0, 10.0), title='synthetic system', dec=3, newline=None):
+    """records: list of (resid, resname, atomname, nr, (x, y, z)[, (vx, vy, vz)]); newline='\\r\\n' writes DOS line ends"""
+    with open(path, 'w', newline=newline) as fh:
         fh.write(title + '\n')
         fh.write('%5d\n' % len(records))
         for r in records:
